@@ -365,7 +365,26 @@ func (r *Reconciler) selectNodes(logger logr.Logger, daemonset *datadoghqv1alpha
 		currentNodes = canaryStatus.Nodes
 	}
 
-	nbCanaryPod, err := intstrutil.GetValueFromIntOrPercent(daemonsetSpec.Strategy.Canary.Replicas, int(replicaset.Status.Desired), true)
+	// A percentage is resolved against the number of nodes the ExtendedDaemonSet targets, i.e. the
+	// nodes its pods can be scheduled on. (The status.desired of the new replica set cannot be
+	// used: it is zero when the canary starts and counts only the canary nodes afterwards.)
+	nbTargetedNodes := int(replicaset.Status.Desired)
+	if replicas := daemonsetSpec.Strategy.Canary.Replicas; replicas != nil && replicas.Type == intstrutil.String {
+		allNodes := nodeList
+		if len(listOptions) != 0 {
+			allNodes = &corev1.NodeList{}
+			if err = r.client.List(context.TODO(), allNodes); err != nil {
+				return err
+			}
+		}
+		nbTargetedNodes = 0
+		for id := range allNodes.Items {
+			if scheduler.CheckNodeFitness(logger.WithValues("filter", "targeted nodes"), newPod, &allNodes.Items[id]) {
+				nbTargetedNodes++
+			}
+		}
+	}
+	nbCanaryPod, err := intstrutil.GetValueFromIntOrPercent(daemonsetSpec.Strategy.Canary.Replicas, nbTargetedNodes, true)
 	if err != nil {
 		return err
 	}
